@@ -89,8 +89,9 @@ func (h *hashRanges) removeElement(elHash uint64) {
 		rng = h.getBottomRange(rng, elHash)
 		rng.elements--
 	}
-	parent := rng.parent
-	if parent.elements <= h.compareThreshold && parent != h.topRange {
+	// merge upwards while the enclosing range fits under the threshold again,
+	// so the division depends only on the elements left
+	for parent := rng.parent; parent != h.topRange && parent.elements <= h.compareThreshold; parent = rng.parent {
 		ranges := genTupleRanges(parent.from, parent.to, h.divideFactor)
 		for _, tuple := range ranges {
 			child := h.ranges[tuple]
@@ -98,10 +99,9 @@ func (h *hashRanges) removeElement(elHash uint64) {
 			delete(h.dirty, child)
 		}
 		parent.isDivided = false
-		h.dirty[parent] = struct{}{}
-	} else {
-		h.dirty[rng] = struct{}{}
+		rng = parent
 	}
+	h.dirty[rng] = struct{}{}
 }
 
 func (h *hashRanges) recalculateHashes() {
